@@ -354,3 +354,9 @@ def stats(rep, cmod):
     rep.ob('C09.stats', '__seq__', ok)
     if not ok:
         rep.violate('C09.stats', cmod, f, '__seq__', "stats['__seq__'] must be __dff__ + __latch__", node=f)
+
+
+def thorough(rep, repo):
+    """Thorough tier: the quick rules plus checker self-validation on the C09 slice of the mutation corpus."""
+    from kvstatic import thorough as thorough_mod
+    thorough_mod.selftest_slice(rep, repo, 'C09')
